@@ -120,6 +120,9 @@ BLOCKS = {
     'pagestyle': ('misc', 'N', '\\pagestyle{empty}\n'),
     'title': ('misc', 'N', '\\title{Title %(n)s}\\author{Auth}\\maketitle\n'),
     'toc': ('misc', 'N', '\\tableofcontents\n'),
+    'reg_muskip': ('register', 'W', '\\thinmuskip=4mu plus 1mu \n'),
+    'reg_glue': ('register', 'W', '\\parskip=3pt plus 1pt \n'),
+    'reg_mudimen_free': ('register', 'W', '\\medmuskip=5mu\n'),
     'openout': ('switch', 'W', '\\openout\\myout=file%(n)s.aux \n'),
     'skip_dimen': ('switch', 'N', 'A\\vskip 3pt B\\hskip 2pt C%(n)s.\n'),
     'skip_glue': ('switch', 'N', 'A\\vspace{3pt plus 1pt} B\\hspace{2pt} C%(n)s.\n'),
